@@ -194,12 +194,16 @@ func readICCP(r binary.Reader, chunkLen uint32) ([]byte, error) {
 		return nil, errors.New("no expected ICCP chunk")
 	}
 
-	// Extract ICCP.
-	data := make([]byte, ch.Length)
-	if _, err := io.ReadFull(r, data); err != nil {
+	// Extract ICCP, reading incrementally so that memory use is bounded by the
+	// data actually present rather than by the declared chunk length.
+	data := &bytes.Buffer{}
+	if _, err := io.CopyN(data, r, int64(ch.Length)); err != nil {
+		if err == io.EOF {
+			err = io.ErrUnexpectedEOF
+		}
 		return nil, err
 	}
-	return data, nil
+	return data.Bytes(), nil
 }
 
 func verifySignature(r binary.Reader) error {
